@@ -11,7 +11,7 @@ import (
 
 // Tok is an observed token.
 type Tok struct {
-	Kind    string `json:"kind"`  // lexgen kinds, plus "kw"/"id" split of words, plus "eof"
+	Kind    string `json:"kind"` // lexgen kinds, plus "kw"/"id" split of words, plus "eof"
 	Value   string `json:"value"`
 	Line    int    `json:"line"`
 	Col     int    `json:"col"`
